@@ -9,6 +9,7 @@ package scramblesuit
 //@   serves C15 C10
 //@   requires dhHsInv(hs) && privOK(hs.keypair)
 //@   modifies hs.serverPublicKey, hs.serverMark, hs.mac.*
+//@   assert_at bytes.Index#1 [C15:mark_search_window] offset(arg0) == offset(resp) + 192 && len(arg0) == min(len(resp), 1516) - 192 && base(arg0) == base(resp)
 //@   ensures [C15:state_inv] dhHsInv(hs)
 //@   ensures [C15:consumed_le_received] err == nil ==> 224 <= n && n <= len(resp) && n <= 1532
 //@   ensures [C15:seed_len] err == nil ==> len(seed) == 32
